@@ -69,7 +69,7 @@ def run(chk: Check):
         sim, real, shape = gen_data(rng, e, n, d)
         weights = rng.choice([None, None, [rng.random() + 0.05 for _ in range(d)]])
         wnp = None if weights is None else np.array(weights)
-        which = rng.choice(["minkowski", "msm", "fourier", "gsl", "likelihood"])
+        which = rng.choice(["minkowski", "msm", "fourier", "gsl", "likelihood"]) if ci >= 3 else "gsl"     # the first three: long structured GSL-div cases
         chk.count("loss:" + which); chk.count("data:" + shape)
         case = {"case": {"loss": which, "E": e, "N": n, "D": d, "shape": shape, "weights": weights}}
         with warnings.catch_warnings(), np.errstate(all="ignore"):
@@ -130,18 +130,18 @@ def run(chk: Check):
                     L = rng.choice([None, 1, 2, 3, 6])
                     if L is not None and L > n - 1:
                         L = 2
-                    if rng.random() < 0.3:
+                    if rng.random() < 0.3 or ci < 3:
                         # a long structured run: an irregular transient, then a steady (periodic) state; few symbols, very long words
                         n = rng.choice([130, 160, 200])
                         nv = rng.choice([2, 3])
-                        L = rng.choice([None, 62, 70, 40, 20])
+                        L = rng.choice([None, 62, 70, 40, 20]) if ci >= 3 else [None, 70, 64][ci]
                         prng2 = np.random.default_rng(rng.randrange(10 ** 9))
 
                         def structured():
                             burn = rng.randint(8, 30)
                             period = rng.choice([2, 3, 5])
                             x = np.concatenate([prng2.standard_normal(burn), np.tile(np.arange(period, dtype=float) - period / 2.0, n)[: n - burn]])
-                            return x + 1e-3 * prng2.standard_normal(n) * rng.choice([0.0, 1.0])
+                            return x + 1e-3 * prng2.standard_normal(n) * (rng.choice([0.0, 1.0]) if ci >= 3 else 0.0)
                         sim = np.stack([np.stack([structured() for _ in range(d)], axis=1) for _ in range(e)])
                         real = np.stack([structured() for _ in range(d)], axis=1)
                         shape = "burnin_then_periodic"
